@@ -32,6 +32,7 @@ pub struct Stats
     pub samples : Vec<J>,
     pub digests : Vec<(u64, u64)>,
     pub want_digests : bool,
+    pub cur_digest : H64,
 }
 
 impl Stats
@@ -47,6 +48,7 @@ impl Stats
             samples : vec![],
             digests : vec![],
             want_digests : false,
+            cur_digest : H64::new(),
         }
     }
 
@@ -68,9 +70,42 @@ impl Stats
         }
     }
 
+    pub fn digest_str(&mut self, text : &str)
+    {
+        if self.want_digests
+        {
+            if std::env::var("VERIF_DIGEST_TRACE").is_ok() { eprintln!("DIGEST {}", text); }
+            self.cur_digest.str(text);
+        }
+    }
+
+    /* end of one seeded run: count it and close its event-log digest */
+    pub fn end_run(&mut self)
+    {
+        self.inc("runs");
+        if self.want_digests
+        {
+            let n = self.counters.get("runs").cloned().unwrap_or(0);
+            self.digests.push((n, self.cur_digest.get()));
+            self.cur_digest = H64::new();
+        }
+    }
+
     /* bookkeeping common to every simulated invocation */
     pub fn note_invocation(&mut self, inv : &Inv, sched_name : &str)
     {
+        if self.want_digests
+        {
+            for e in inv.res.events.iter()
+            {
+                self.cur_digest.u64(e.tid as u64).str(&event_digest_text(&e.kind));
+            }
+            self.cur_digest.str(&inv.res.verdict.short());
+            for p in inv.res.printed.iter()
+            {
+                if let Printed::Banner(k, path) = p { self.cur_digest.str(k).str(path); }
+            }
+        }
         self.inc("evaluations");
         self.inc(if inv.is_build { "invocations.build" } else { "invocations.clean" });
         self.add("sim.steps", inv.res.steps as u64);
@@ -298,8 +333,6 @@ pub fn hist_run(prop : &str, case : &Case, mut stats : Option<&mut Stats>) -> Ve
     let mut run_hash = H64::new();
     run_hash.u64(shape_hash(&case.rules)).u64(ops_hash(&case.ops));
     let mut nontrivial = false;
-    let mut digest = H64::new();
-
     while !runner.done()
     {
         let op = runner.case.ops[runner.next_op].clone();
@@ -318,14 +351,6 @@ pub fn hist_run(prop : &str, case : &Case, mut stats : Option<&mut Stats>) -> Ve
         if let Some(s) = stats.as_deref_mut()
         {
             s.note_invocation(&inv, sched_name);
-            if s.want_digests
-            {
-                for e in inv.res.events.iter()
-                {
-                    digest.u64(e.tid as u64).str(&event_digest_text(&e.kind));
-                }
-                digest.str(&inv.res.verdict.short());
-            }
         }
 
         let mut vs : Vec<Violation> = vec![];
@@ -476,17 +501,12 @@ pub fn hist_run(prop : &str, case : &Case, mut stats : Option<&mut Stats>) -> Ve
 
     if let Some(s) = stats.as_deref_mut()
     {
-        s.inc("runs");
         if prop == "C01" && nontrivial
         {
             s.distinct.insert(run_hash.get());
             s.inc("c01.histories_with_two_ok_builds_and_change");
         }
-        if s.want_digests
-        {
-            let n = s.counters.get("runs").cloned().unwrap_or(0);
-            s.digests.push((n, digest.get()));
-        }
+        s.end_run();
     }
     found
 }
